@@ -212,7 +212,9 @@ def replay_chunk(args):
                 leaf = fv.leaf("x")
             except Exception:
                 pass
-            if fv.meta is not None and leaf is not None and not probs:
+            # a chunk null_count that disagrees with the pages (E-NULLCOUNT) is reported above for C02 and must not keep
+            # C04's own comparison below from running
+            if fv.meta is not None and leaf is not None and not [p for p in probs if not p.startswith("E-NULLCOUNT")]:
                 # layout vs the specification
                 real_rgs = []
                 for rg in fv.row_groups:
